@@ -1,10 +1,11 @@
 // Bounded stand-ins for properties C08 (no panic on any input) and C09 (time / memory budget).
-// Injected into package jpeg2000 by `go test -overlay`; never copied into /repo. See ../README.md (or ../../README.md).
+// Injected into package jpeg2000/codestream by `go test -overlay`; never copied into /repo. See ../README.md (or ../../README.md).
 
-package jpeg2000
+package codestream
 
 import (
 	"encoding/binary"
+	"encoding/hex"
 	"fmt"
 	"math/rand"
 	"os"
@@ -909,93 +910,66 @@ func verifC08ManyComponents(b verifC08Base, csiz int, ext uint32, layers int) (v
 		kind: "special", off: csiz, val: layers, data: d}, true
 }
 
-const verifC08Pkg = "jpeg2000"
+const verifC08Pkg = "jpeg2000/codestream"
 
-type verifC08J2KCfg struct {
-	w, h, comps, bits int
-	signed            bool
-	levels, layers    int
-	lossless, mct     bool
-	tw, th            int
-	cbw, cbh          int
-	prog              uint8
-	pw, ph            int
-	roi, mctBind      bool
-}
-
-func (c verifC08J2KCfg) String() string {
-	return fmt.Sprintf("jpeg2000.Encoder %dx%d comps=%d bits=%d signed=%v levels=%d layers=%d lossless=%v mct=%v tile=%dx%d cblk=%dx%d prog=%d precinct=%dx%d",
-		c.w, c.h, c.comps, c.bits, c.signed, c.levels, c.layers, c.lossless, c.mct, c.tw, c.th, c.cbw, c.cbh, c.prog, c.pw, c.ph) + map[bool]string{true: " ROI(2,2,4x4,shift3)"}[c.roi] + map[bool]string{true: " MCTBinding(identity+offsets)"}[c.mctBind]
+// The codestream package has no encoder and cannot import package jpeg2000 (import cycle), so the valid
+// base streams are embedded: they are the byte-exact outputs of jpeg2000.NewEncoder(params).Encode for the
+// parameters in the name (generated with the pinned tree by TestVerif_C08_jpeg2000's verifC08Bases, pixel
+// generator verifC08J2KPixels seed 7).
+var verifC08Embedded = []struct{ name, hex string }{
+	{"jpeg2000.Encoder 1x1 comps=1 bits=8 signed=false levels=0 layers=1 lossless=true mct=false tile=0x0 cblk=64x64 prog=0 precinct=0x0",
+		"ff4fff510029000000000001000000010000000000000000000000010000000100000000000000000001070101ff52000c00000001000004040001ff5c00044040ff640025000143726561746564206279204f70656e4a5045472076657273696f6e20322e352e34ff90000a0000000000130001ff93cfb408089fffd9"},
+	{"jpeg2000.Encoder 8x8 comps=1 bits=8 signed=false levels=1 layers=1 lossless=true mct=false tile=0x0 cblk=64x64 prog=0 precinct=0x0",
+		"ff4fff510029000000000008000000080000000000000000000000080000000800000000000000000001070101ff52000c00000001000104040001ff5c00074040484850ff640025000143726561746564206279204f70656e4a5045472076657273696f6e20322e352e34ff90000a0000000000560001ff93cfb44417f6eb959a83b9781ade0a52d419cbf373cfc0467e01d3f30d14c9d2d91f75748c5529a50f40d2f027af0f6a9f4ac367aec91915b7da69371fbf4f6f63ac284e5a543ad739ffd9"},
+	{"jpeg2000.Encoder 17x5 comps=3 bits=8 signed=false levels=1 layers=1 lossless=true mct=true tile=0x0 cblk=64x64 prog=0 precinct=0x0",
+		"ff4fff51002f000000000011000000050000000000000000000000110000000500000000000000000003070101070101070101ff52000c00000001010104040001ff5c00074040484850ff640025000143726561746564206279204f70656e4a5045472076657273696f6e20322e352e34ff90000a00000000013a0001ff93cfb47420e6e8d5350bfd13ec3898931b2a803b22b3ce2d978b4cf4c35bcd741cdf80e80e98d41619c77e5551020a260a27dd264aaa9c352295a7baac0b6bff6bdf80f00b23d50823d1bfbd6c4b0c6876b7207bb79a70dbf15301393ad9e04868d7c7da311f688c3ed0f0199562dd3f62ff21fc6328f7e152b788c2a9e7d0770377990fb4b2e6f3142946180bd5e7846d86ac210b284aab127568ecc61fb87733c6fbcfc0627e0293f3100422a11c2c364cd5082270371916675df0acd3c33aff393d0d9bc3f9c3ea00ab02b28898d326fd31f9087d7927f9595aae583f7c2584914ff4dd92abcfc066fcc563f01004071bdc66e8f523abcbfd7950e8333b29150a67566a69c91f295e449e1c94bfea03840a05aeb6dad16d29ad4a8f0760c37c09fccc533058678cad73a38bffd9"},
+	{"jpeg2000.Encoder 8x8 comps=3 bits=8 signed=false levels=2 layers=1 lossless=false mct=true tile=0x0 cblk=64x64 prog=0 precinct=0x0",
+		"ff4fff51002f000000000008000000080000000000000000000000080000000800000000000000000003070101070101070101ff52000c00000001010204040000ff5c001142694869b869b86a08619861986150ff640025000143726561746564206279204f70656e4a5045472076657273696f6e20322e352e34ff90000a0000000001520001ff93c7f20e02e9089dc30e9fc1f98380079a3a9c13cf7fc1f983000396ded041c3c7f20f07e60d07e60c10586b61cbc2c90502f3fc206f033e824b0542c1f983407da0b03f00600250611b3edd0b0a5bc7a100f937e5737fc1f98343f60781f8030004f1136ec0e904f5997dfd201f046751920b8fc7ec2f1fb0b43f314018622a416a0aa98b70875dca19b8a06417409080f9f53f14a341426c628d33eeb28a2fbcc286a17c8ec203f03f1acb6712177515815fdfd8b26f94a5150040e29fc3f3128fd8521f989015fe393811e34c80b4e2dfe5ccde215a585f120fadaa8e42da659ea0f1074b7e1da5ca8bdf7f11ab8ed846f2d38c34005f412100f50f654fc3f31487e62b1fb0a0146dcd52e7bc7a1aa1409319c71b142b36483f8f0c6351f542eceb8f7c4244f5fa70b3a164cd9cd5471fbf58d93db5b3a4ec268eeae461bf749419c7f4ffd9"},
+	{"jpeg2000.Encoder 17x5 comps=1 bits=8 signed=false levels=1 layers=1 lossless=true mct=false tile=8x4 cblk=64x64 prog=0 precinct=0x0",
+		"ff4fff510029000000000011000000050000000000000000000000080000000400000000000000000001070101ff52000c00000001000104040001ff5c00074040484850ff640025000143726561746564206279204f70656e4a5045472076657273696f6e20322e352e34ff90000a0000000000380001ff93cfb4240c9f7b5a9b7452177fc7da0d0fa8223f0070010dbc2950b40dd54ee17b7f1ea70f8db54c726e7fff90000a00010000003f0001ff93cfb4280768cfa9c4d8517cc47fc7da113f0099f985001131f66e327461b411f0648999ce8bf4df18fe569989bc673a8e5fff90000a0002000000190001ff93c7d40608fdbfc00880ff7fff90000a00030000001e0001ff93cfb4140ca9e758afcfc0140d7cb703c9ff90000a00040000001c0001ff93cfb414039a381cdfc7da06043c10ff90000a0005000000120001ff93c0f84107ffd9"},
+	{"jpeg2000.Encoder 33x20 comps=1 bits=8 signed=false levels=2 layers=2 lossless=false mct=false tile=16x16 cblk=4x4 prog=2 precinct=16x16",
+		"ff4fff510029000000000021000000140000000000000000000000100000001000000000000000000001070101ff52000f01020002000200000000223344ff5c001142694869b869b86a08619861986150ff640025000143726561746564206279204f70656e4a5045472076657273696f6e20322e352e34ff90000a00000000000f0001ff9300ff90000a00010000000f0001ff9300ff90000a0002000000360001ff93c460142894fee0a01aa8196c6fc460153c90fee080ad2ab777c4630e301f0facc9fe8080ab3243d8ff90000a00030000000f0001ff9300ff90000a00040000000f0001ff9300ff90000a00050000000f0001ff9300ffd9"},
+	{"jpeg2000.Encoder 8x8 comps=1 bits=8 signed=false levels=1 layers=1 lossless=true mct=false tile=0x0 cblk=64x64 prog=0 precinct=0x0 ROI(2,2,4x4,shift3)",
+		"ff4fff510029000000000008000000080000000000000000000000080000000800000000000000000001070101ff52000c00000001000104040001ff5c00074040484850ff640025000143726561746564206279204f70656e4a5045472076657273696f6e20322e352e34ff5e0005000003ff90000a00000000005c0001ff5e0005000003ff93cfb4401e758cdd0984f2ce82a7433311e70adfcfc0467e01d3f30d14c9d2d91f75748c5529a50f40d2f027af0f6a9f4ac367aec91915b7da69371fbf4f6f63ac284e5a543ad739ffd9"},
+	{"jpeg2000.Encoder 8x8 comps=2 bits=8 signed=false levels=0 layers=1 lossless=true mct=true tile=0x0 cblk=64x64 prog=0 precinct=0x0 MCTBinding(identity+offsets)",
+		"ff4fff51002c000000000008000000080000000000000000000000080000000800000000000000000002070101070101ff52000c00000001010004040001ff5c00044040ff640025000143726561746564206279204f70656e4a5045472076657273696f6e20322e352e34ff7400180000090100003f80000000000000000000003f800000ff74001000000a02000040a00000c0a00000ff75001500000300000001010002000100020001000201ff7700040103ff90000a00000000007b0001ff93cfb4cc117a173083dc9c5538fd331ff34b4f20afa07899060d870359e4244694ba99619bfac88ceeafb21e1fe37e83d50e3ed1f1040dcfb4d0142aa107be0923d3833c6cccd62ec75211c92ae185aef3edc2e18794fae681e31b75a5aa32e062bc068215d904b5c77a0625287fffd9"},
 }
 
 func verifC08Bases(t *testing.T) []verifC08Base {
-	cfgs := []verifC08J2KCfg{
-		{w: 1, h: 1, comps: 1, bits: 8, levels: 0, layers: 1, lossless: true, cbw: 64, cbh: 64},
-		{w: 8, h: 8, comps: 1, bits: 8, levels: 1, layers: 1, lossless: true, cbw: 64, cbh: 64},
-		{w: 17, h: 5, comps: 1, bits: 16, levels: 2, layers: 1, lossless: true, cbw: 64, cbh: 64},
-		{w: 17, h: 5, comps: 3, bits: 8, levels: 1, layers: 1, lossless: true, mct: true, cbw: 64, cbh: 64},
-		{w: 17, h: 5, comps: 3, bits: 8, levels: 1, layers: 1, lossless: true, mct: false, cbw: 64, cbh: 64},
-		{w: 8, h: 8, comps: 3, bits: 8, levels: 2, layers: 1, lossless: false, mct: true, cbw: 64, cbh: 64},
-		{w: 17, h: 5, comps: 1, bits: 12, levels: 1, layers: 2, lossless: true, cbw: 64, cbh: 64},
-		{w: 17, h: 5, comps: 1, bits: 8, levels: 1, layers: 1, lossless: true, tw: 8, th: 4, cbw: 64, cbh: 64},
-		{w: 33, h: 20, comps: 1, bits: 8, levels: 2, layers: 2, lossless: false, tw: 16, th: 16, cbw: 4, cbh: 4, prog: 2, pw: 16, ph: 16},
-		{w: 8, h: 8, comps: 1, bits: 16, signed: true, levels: 0, layers: 1, lossless: true, cbw: 8, cbh: 8, prog: 4},
-		{w: 8, h: 8, comps: 1, bits: 8, levels: 1, layers: 1, lossless: true, cbw: 64, cbh: 64, roi: true},
-		{w: 8, h: 8, comps: 2, bits: 8, levels: 0, layers: 1, lossless: true, mct: true, cbw: 64, cbh: 64, mctBind: true},
-	}
 	var out []verifC08Base
-	for _, c := range cfgs {
-		c := c
-		func() {
-			defer func() {
-				if p := recover(); p != nil {
-					t.Logf("encoder panicked for %s: %v", c, p)
-				}
-			}()
-			p := DefaultEncodeParams(c.w, c.h, c.comps, c.bits, c.signed)
-			p.NumLevels, p.NumLayers, p.Lossless, p.EnableMCT = c.levels, c.layers, c.lossless, c.mct
-			p.TileWidth, p.TileHeight, p.CodeBlockWidth, p.CodeBlockHeight = c.tw, c.th, c.cbw, c.cbh
-			p.ProgressionOrder, p.PrecinctWidth, p.PrecinctHeight = c.prog, c.pw, c.ph
-			if c.roi {
-				p.ROI = &ROIParams{X0: 2, Y0: 2, Width: 4, Height: 4, Shift: 3}
-			}
-			if c.mctBind {
-				p.MCTBindings = []MCTBindingParams{{AssocType: 2, ComponentIDs: []uint16{0, 1}, Matrix: [][]float64{{1, 0}, {0, 1}},
-					Inverse: [][]float64{{1, 0}, {0, 1}}, Offsets: []int32{5, -5}, ElementType: 1}}
-			}
-			d, err := NewEncoder(p).Encode(verifC08J2KPixels(c.w, c.h, c.comps, c.bits, 7))
-			if err != nil {
-				t.Logf("encoder refused %s: %v", c, err)
-				return
-			}
-			chk := NewDecoder()
-			if err := chk.Decode(d); err != nil {
-				t.Logf("decoder rejects the encoder's own output for %s: %v", c, err)
-			}
-			out = append(out, verifC08Base{name: c.String(), data: d})
-		}()
+	for _, e := range verifC08Embedded {
+		d, err := hex.DecodeString(e.hex)
+		if err != nil {
+			t.Fatalf("bad embedded stream %s: %v", e.name, err)
+		}
+		if _, err := NewParser(d).Parse(); err != nil {
+			t.Logf("parser rejects embedded valid stream %s: %v", e.name, err)
+		}
+		out = append(out, verifC08Base{name: "embedded " + e.name, data: d})
 	}
 	return out
 }
 
-func verifC08UseDecoder(d *Decoder, data []byte) bool {
-	if err := d.Decode(data); err != nil {
-		return false
-	}
-	_ = d.GetPixelData()
-	_ = d.GetImageData()
-	_, _ = d.GetComponentData(0)
-	_, _, _, _, _ = d.Width(), d.Height(), d.Components(), d.BitDepth(), d.IsSigned()
-	return true
-}
-
 func verifC08Decoders() []verifC08Decoder {
 	return []verifC08Decoder{
-		{name: "jpeg2000.NewDecoder().Decode+GetPixelData", fn: func(d []byte) bool { return verifC08UseDecoder(NewDecoder(), d) }},
-		{name: "jpeg2000.NewDecoder()+SetResilient(true).Decode+GetPixelData", fn: func(d []byte) bool {
-			dec := NewDecoder()
-			dec.SetResilient(true)
-			return verifC08UseDecoder(dec, d)
+		{name: "codestream.NewParser(data).Parse+Tile{COD,QCD},Component{COD,QCD} accessors", fn: func(d []byte) bool {
+			cs, err := NewParser(d).Parse()
+			if err != nil {
+				return false
+			}
+			for _, tile := range cs.Tiles {
+				_ = cs.TileCOD(tile)
+				_ = cs.TileQCD(tile)
+				n := 0
+				if cs.SIZ != nil {
+					n = int(cs.SIZ.Csiz)
+				}
+				for c := 0; c < n && c < 4; c++ {
+					_ = cs.ComponentCOD(tile, c)
+					_ = cs.ComponentQCD(tile, c)
+				}
+			}
+			return true
 		}},
 	}
 }
@@ -1003,73 +977,77 @@ func verifC08Decoders() []verifC08Decoder {
 // verifC08Excluded lists recipes (verifC08Case.key) that abort the whole test process (out of memory, or a
 // decode that does not return within the watchdog limit); each one is a recorded violation and is not executed
 // so that the remaining domain can run. Set VERIF_RUN_EXCLUDED=1 to execute them anyway.
-var verifC08Excluded = map[string]verifC08Excl{
-	// C09 violation (time): a 478 byte codestream declaring 17x17x16 = 4624 samples and 65535 quality layers
-	// decodes "successfully" (err == nil) after 15.4 s on the reference machine (40 s with Csiz=64, 100 s with
-	// Csiz=64 and 256x256, all S <= 2^22). The packet loop in t2 iterates layers x components x resolutions
-	// although the input ended after the first packets.
-	"jpeg2000.Encoder 17x5 comps=3 bits=8 signed=false levels=1 layers=1 lossless=true mct=false tile=0x0 cblk=64x64 prog=0 precinct=0x0 with Csiz=16 (consistent component table),Xsiz=Ysiz=XTsiz=YTsiz=17,COD.layers=65535|special|16|65535": {
-		why: "decode returns only after ~15 s (> 10 s) for a 478 byte input with declared S=4624"},
-	"jpeg2000.Encoder 17x5 comps=3 bits=8 signed=false levels=1 layers=1 lossless=true mct=false tile=0x0 cblk=64x64 prog=0 precinct=0x0 with Csiz=64 (consistent component table),Xsiz=Ysiz=XTsiz=YTsiz=17,COD.layers=65535|special|64|65535": {
-		why: "decode returns only after ~41 s (> 10 s) for a 622 byte input with declared S=18496"},
-	// C09 violation (time): 251 byte codestream (RPCL, 16x16 precincts, 4x4 code-blocks), SIZ rewritten to one
-	// 2048x2048 tile resp. one 4194304x1 tile (S = 2^22) and COD.layers=256: no return after 150 s.
-	"jpeg2000.Encoder 33x20 comps=1 bits=8 signed=false levels=2 layers=2 lossless=false mct=false tile=16x16 cblk=4x4 prog=2 precinct=16x16 with Xsiz=2048,Ysiz=2048,XTsiz=2048,YTsiz=2048,COD.layers=256|special|38|256": {
-		why: "decode does not return within 12 s (251 byte input, declared S=2^22)"},
-	"jpeg2000.Encoder 33x20 comps=1 bits=8 signed=false levels=2 layers=2 lossless=false mct=false tile=16x16 cblk=4x4 prog=2 precinct=16x16 with Xsiz=4194304,Ysiz=1,XTsiz=4194304,YTsiz=1,COD.layers=256|special|50|256": {
-		why: "decode does not return within 150 s (251 byte input, declared S=2^22)"},
+var verifC08Excluded = map[string]verifC08Excl{}
+
+// verifC08SkipSegmentSpecials: unknown marker segments with length 0 / 1 (skipSegment then steps backwards)
+// in the main header and in a tile-part header, alone and in long runs.
+func verifC08SkipSegmentSpecials(b verifC08Base) []verifC08Case {
+	var out []verifC08Case
+	pc := verifC08FindSeg(b.data, 0x52)
+	pt := verifC08FindSeg(b.data, 0x90)
+	if pc < 0 || pt < 0 {
+		return nil
+	}
+	n := 0
+	for _, at := range []int{pc, pt + 12} {
+		for _, marker := range []byte{0x30, 0x50, 0x55, 0x57, 0x60, 0x00, 0xFF} {
+			for _, l := range []int{0, 1, 2, 3} {
+				for _, rep := range []int{1, 2, 1000, 30000} {
+					seg := []byte{0xFF, marker, byte(l >> 8), byte(l)}
+					d := append([]byte(nil), b.data[:at]...)
+					for i := 0; i < rep; i++ {
+						d = append(d, seg...)
+					}
+					d = append(d, b.data[at:]...)
+					out = append(out, verifC08Case{base: fmt.Sprintf("%s with %d x segment FF%02X length=%d inserted at offset %d", b.name, rep, marker, l, at), kind: "special", off: n, val: l, data: d})
+					n++
+				}
+			}
+		}
+	}
+	for _, size := range []int{100, 4000, 65000} {
+		d := append([]byte(nil), b.data[:pc]...)
+		d = append(d, make([]byte, size)...)
+		out = append(out, verifC08Case{base: fmt.Sprintf("%s main header through SIZ followed by %d zero bytes", b.name, size), kind: "special", off: n, val: size, data: d})
+		n++
+	}
+	return out
 }
 
 func verifC08Setup(t *testing.T) (decs []verifC08Decoder, enumerate func(fn func(c *verifC08Case) bool), domain string) {
 	bases := verifC08Bases(t)
-	if len(bases) < 4 {
-		t.Fatalf("too few base streams: %d", len(bases))
-	}
 	prefixes := []verifC08Base{{name: "prefix=SOC", data: []byte{0xFF, 0x4F}}}
 	if p := verifC08FindSeg(bases[1].data, 0x51); p == 2 {
 		l := int(bases[1].data[4])<<8 | int(bases[1].data[5])
 		prefixes = append(prefixes, verifC08Base{name: "prefix=SOC+SIZ of " + bases[1].name, data: bases[1].data[:4+l]})
 	}
-	for _, i := range []int{1, 3} {
+	for _, i := range []int{1, 2, 7} {
 		prefixes = append(prefixes, verifC08Base{name: "prefix=header-through-SOD of " + bases[i].name, data: verifC08ThroughSOD(bases[i].data)})
 	}
-	sel := []verifC08Base{bases[1], bases[3]}
-	if len(bases) > 7 {
-		sel = append(sel, bases[7])
-	}
-	specials := append(verifC08SIZSpecials(sel), verifC08CODSpecials(sel[:2], verifC08Tier())...)
-	for _, i := range []int{1, 3, 5} {
-		maxLayers := 0xffff
-		if i != 1 && verifC08Tier() != "thorough" {
-			maxLayers = 256 // 3-component streams with 4096+ layers cost 0.5-7 s each
-		}
-		specials = append(specials, verifC08BudgetSpecials(bases[i], maxLayers)...)
-	}
-	// RPCL + 16x16 precincts + 4x4 code-blocks: the decoder's work grows with extent x layers although the input
-	// stays 251 bytes; only the small extents are executed, two large ones are recorded in verifC08Excluded
-	// (1024x1024 with 256 layers takes ~10 s and is left out to keep the verdict deterministic).
-	for _, c := range verifC08BudgetSpecials(bases[8], 256) {
-		_, ex := verifC08Excluded[c.key()]
-		if ex || strings.Contains(c.base, " with Xsiz=64,") || strings.Contains(c.base, " with Xsiz=256,") {
-			specials = append(specials, c)
-		}
-	}
-	// 16 components x 65535 layers on a 17x17 image: see verifC08Excluded
-	for _, cl := range [][2]int{{16, 1024}, {16, 0xffff}, {64, 0xffff}} {
-		if c, ok := verifC08ManyComponents(bases[4], cl[0], 17, cl[1]); ok {
-			specials = append(specials, c)
+	specials := append(verifC08SIZSpecials(bases[1:4]), verifC08CODSpecials([]verifC08Base{bases[1], bases[5], bases[7]}, "thorough")...)
+	specials = append(specials, verifC08SkipSegmentSpecials(bases[1])...)
+	for _, i := range []int{6, 7} {
+		// all 256 values of every byte of the RGN / MCT / MCC / MCO segments
+		for _, s := range verifC08Segments(bases[i].data) {
+			m := bases[i].data[s[0]+1]
+			if m != 0x5E && m != 0x74 && m != 0x75 && m != 0x77 {
+				continue
+			}
+			for o := s[0] + 2; o < s[1]; o++ {
+				for v := 0; v < 256; v++ {
+					if int(bases[i].data[o]) == v {
+						continue
+					}
+					d := append([]byte(nil), bases[i].data...)
+					d[o] = byte(v)
+					specials = append(specials, verifC08Case{base: fmt.Sprintf("%s with byte %d of the FF%02X segment at %d", bases[i].name, o-s[0], m, s[0]), kind: "segbyte", off: o, val: v, data: d})
+				}
+			}
 		}
 	}
 	tier, seed := verifC08Tier(), verifC08Seed()
-	enumerate = func(fn0 func(c *verifC08Case) bool) {
+	enumerate = func(fn func(c *verifC08Case) bool) {
 		stopped := false
-		sampledOut := 0
-		fn := verifC08QuickFilter(tier, bases, map[int]bool{1: true}, &sampledOut, fn0)
-		defer func() {
-			if sampledOut > 0 {
-				fmt.Printf("VERIF-C08-NOTE %d inputs with > 1024 declared layers sampled out in quick tier\n", sampledOut)
-			}
-		}()
 		verifC08Enumerate(bases, prefixes, verifC08Markers, verifC08Segments, tier, seed, func(c *verifC08Case) bool {
 			if !fn(c) {
 				stopped = true
@@ -1083,21 +1061,22 @@ func verifC08Setup(t *testing.T) (decs []verifC08Decoder, enumerate func(fn func
 			}
 		}
 	}
-	return verifC08Decoders(), enumerate, verifC08J2KDomain(tier, len(bases), "jpeg2000.Encoder: 1x1, 8x8, 17x5, 33x20; 1, 2 and 3 components; one with ROI/RGN, one with Part-2 MCT/MCC/MCO binding; 8/12/16 bit, signed 16; 0-2 levels; 1-2 layers; reversible and irreversible; MCT on/off; single tile, 8x4 and 16x16 tiles; 64x64, 8x8, 4x4 code-blocks; LRCP/RPCL/CPRL", true)
+	return verifC08Decoders(), enumerate, verifC08J2KDomain(tier, len(bases), "embedded outputs of jpeg2000.Encoder: 1x1, 8x8, 17x5, 33x20; 1-3 components; reversible/irreversible; single tile, 8x4 and 16x16 tiles; with RGN; with MCT/MCC/MCO", false) +
+		"; additionally all 256 values of every byte of the RGN/MCT/MCC/MCO segments, and unknown marker segments of length 0..3 (x1, x2, x1000, x30000) in main and tile-part header, and 100..65000 zero bytes after SIZ"
 }
 
-func TestVerif_C08_jpeg2000(t *testing.T) {
+func TestVerif_C08_codestream(t *testing.T) {
 	decs, enumerate, domain := verifC08Setup(t)
 	verifC08RunC08(t, verifC08Pkg, decs, verifC08Declared, verifC08Excluded, enumerate,
-		"C08 no-panic, entries Decoder object: NewDecoder().Decode then GetPixelData/GetImageData/getters (all cases), same with SetResilient(true) (accepted, panicking and every 8th case); "+domain)
+		"C08 no-panic, entry codestream.NewParser(data).Parse() followed by the Tile/Component COD/QCD accessors (all cases); "+domain)
 }
 
-func TestVerif_C09_jpeg2000(t *testing.T) {
+func TestVerif_C09_codestream(t *testing.T) {
 	decs, enumerate, domain := verifC08Setup(t)
-	every := 6
+	every := 4
 	if verifC08Tier() == "thorough" {
 		every = 1
 	}
 	verifC08RunC09(t, verifC08Pkg, decs, verifC08Declared, verifC08Excluded, enumerate, every,
-		fmt.Sprintf("C09 per decode: wall <= 10 s and TotalAlloc delta (upper bound proxy for peak heap) <= 512MiB+64*S, S = (Xsiz-XOsiz)*(Ysiz-YOsiz)*Csiz of the first SIZ (0 if none or negative); sample = every case whose declared S differs from its base stream + all handcrafted specials + every %d-th case of: ", every)+domain)
+		fmt.Sprintf("C09 per Parse: wall <= 10 s and TotalAlloc delta (upper bound proxy for peak heap) <= 512MiB+64*S, S = (Xsiz-XOsiz)*(Ysiz-YOsiz)*Csiz of the first SIZ (0 if none or negative); sample = every case whose declared S differs from its base stream + all handcrafted specials + every %d-th case of: ", every)+domain)
 }
